@@ -29,7 +29,7 @@ PROBES = ["kill_inside_copy", "kill_between_files", "kill_holding_lock", "load_d
           "populator_interrupted_by_io_error", "waiter_gave_up_at_timeout", "load_not_judged_lock_timeout",
           "s5_refresh_overlaps_populator", "s5_load_overlaps_refresh", "load_retried_in_same_process",
           "hung_holder_then_killed", "interval_truth_checked", "tz_not_utc", "tmp_on_other_device",
-          "waiter_entered_after_waiting"]
+          "waiter_entered_after_waiting", "refresh_attempt_with_clock_behind_timestamp", "cache_reached_through_symlink"]
 RULE = ("Runs 0..S1_N-1 enumerate every crash point (kill before step k, plain and with a torn variant of a pending "
         "write, k = 0..139; probe s1_enum_kill_beyond_last_step shows the enumeration passed the last step) of the "
         "population of one (quick) / six (thorough) fixed file subsets, each followed by fresh loads of every file "
@@ -453,6 +453,13 @@ def generate(run_index, seed, tier):
                 procs.append(_proc(g, "load", version=version_of(g.pick(files))))
             phases.append({"procs": procs, "gap": g.pick([0.0, 1.0, 60.0, 600.0, 1799.0, 1801.0, 5000.0])})
         phases.append({"procs": [_proc(g, "load", version=version_of(f)) for f in g.subset(files, 1, 2)], "gap": 0.0})
+    if fam != "S4" and g.chance(0.3):
+        # some processes reach the cache directory through a symbolic link: one directory, two spellings
+        sc["link"] = True
+        for ph in phases:
+            for pr in ph["procs"]:
+                if pr["kind"] in ("populate", "load", "hold") and pr["args"].get("dir", "cache") == "cache" and g.chance(0.5):
+                    pr["args"]["via_link"] = True
     sc["files"] = files
     sc["phases"] = phases
     # timing assumption (ASSUMPTIONS): a non-faulty population or refresh holds the lock for well under the 1 s lock
@@ -569,13 +576,13 @@ class _Env:
             try:
                 r = orig_enter(lock_self)
             except BaseException as e:
-                events.append({"ev": "enter-raised", "pid": pid, "dir": lock_self.cache_folder, "seq": sim.seq,
+                events.append({"ev": "enter-raised", "pid": pid, "dir": os.path.realpath(lock_self.cache_folder), "seq": sim.seq,
                                "t0": t0, "t1": sim.monotonic(), "exc": type(e).__name__, "msg": str(e)[:200], "seq0": s0,
                                "stamp0": stamp0, "write_time": lock_self.write_time})
                 sim.record("cl-enter-raised", fs_rel(self.fs, lock_self.cache_folder), type(e).__name__)
                 raise
             s = sim.record("cl-enter-returned", fs_rel(self.fs, lock_self.cache_folder))
-            events.append({"ev": "enter-returned", "pid": pid, "dir": lock_self.cache_folder, "seq": s,
+            events.append({"ev": "enter-returned", "pid": pid, "dir": os.path.realpath(lock_self.cache_folder), "seq": s,
                            "t0": t0, "t1": sim.monotonic(), "obj": id(lock_self), "seq0": s0,
                            "stamp0": stamp0, "write_time": lock_self.write_time})
             return r
@@ -584,10 +591,10 @@ class _Env:
             p = sim.current()
             pid = p.pid if p else -1
             s = sim.record("cl-exit-called", fs_rel(self.fs, lock_self.cache_folder))
-            events.append({"ev": "exit-called", "pid": pid, "dir": lock_self.cache_folder, "seq": s, "obj": id(lock_self)})
+            events.append({"ev": "exit-called", "pid": pid, "dir": os.path.realpath(lock_self.cache_folder), "seq": s, "obj": id(lock_self)})
             r = orig_exit(lock_self, *a)
             s2 = sim.record("cl-exit-returned", fs_rel(self.fs, lock_self.cache_folder))
-            events.append({"ev": "exit-returned", "pid": pid, "dir": lock_self.cache_folder, "seq": s2, "seq_call": s,
+            events.append({"ev": "exit-returned", "pid": pid, "dir": os.path.realpath(lock_self.cache_folder), "seq": s2, "seq_call": s,
                            "obj": id(lock_self), "wall": sim.now, "write_time": lock_self.write_time})
             return r
 
@@ -648,14 +655,34 @@ def _read_stamp(folder):
         return None
 
 
+_HEX = None
+
+
 def fs_rel(fs, path):
+    """Name of a path in the recorded history: relative to the run's root, the symlinked spelling of the cache folded onto
+    the real one, and hash-like name parts (derived from absolute scratch paths by some implementations) masked."""
+    global _HEX
+    if _HEX is None:
+        import re
+        _HEX = re.compile(r"(?<![0-9a-zA-Z])[0-9a-f]{12,64}(?![0-9a-zA-Z])")
     r = fs._rel(path)
-    return r if r is not None else str(path)
+    r = r if r is not None else str(path)
+    return _canon_rel(r)
+
+
+def _canon_rel(r):
+    global _HEX
+    if _HEX is None:
+        import re
+        _HEX = re.compile(r"(?<![0-9a-zA-Z])[0-9a-f]{12,64}(?![0-9a-zA-Z])")
+    if r == "cachelink" or r.startswith("cachelink/"):
+        r = "cache" + r[len("cachelink"):]
+    return _HEX.sub("<hex>", r)
 
 
 def _actor(kind, args, W, sim, root, peer):
     hc, hl, hio = W["hed_cache"], W["hed_cache_lock"], W["hed_schema_io"]
-    cache = os.path.join(root, "cache")
+    cache = os.path.join(root, "cachelink" if args.get("via_link") else "cache")
     if kind == "populate":
         def populate():
             _clear_caches(W)
@@ -668,7 +695,8 @@ def _actor(kind, args, W, sim, root, peer):
             for attempt in range(int(args.get("retries", 0)) + 1):
                 W["attempt_seq"][sim.current().pid] = sim.record("load-attempt", None, attempt)
                 try:
-                    s = hio.load_schema_version(args["version"])
+                    s = hio.load_schema_version(args["version"], xml_folder=cache) if args.get("via_link") \
+                        else hio.load_schema_version(args["version"])
                     return ("load", s)
                 except (HedFileError, hl.CacheException):
                     if attempt == int(args.get("retries", 0)):
@@ -707,12 +735,16 @@ def execute(sc, script=None):
     shutil.rmtree(root, ignore_errors=True)
     os.makedirs(os.path.join(root, "installed"))
     os.makedirs(os.path.join(root, "tmp"))
+    if sc.get("link"):
+        os.makedirs(os.path.join(root, "cache"))       # the link names an existing directory
+    os.symlink(os.path.join(root, "cache"), os.path.join(root, "cachelink"))     # a second spelling of the cache directory
     for n in sc["files"]:
         os.link(os.path.join(W["ref"], n), os.path.join(root, "installed", n))
     decider = Decider(sc["sched_seed"], script)
     sim = Sim(decider, max_steps=200000)
     fs = SimFS(sim, [root], chunk=sc["chunk"], copy_bufsize=sc["bufsize"], permute_listing=sc["permute"],
                proxy_reads=sc["proxy_reads"], devices=(["tmp"] if sc.get("tmp_dev") else []))
+    fs.rel_filter = _canon_rel
     _reset_process_globals(W)
     _PerProcessGlobals(W, sim)
     W["attempt_seq"] = {}
@@ -773,6 +805,8 @@ def execute(sc, script=None):
         faults["net_partition_hit"] = n_net_down
     if sc.get("enumerated") and not sim.fired.get("kill"):
         probe("s1_enum_kill_beyond_last_step")     # the enumeration ran past the populator's last step: it is complete
+    if sc.get("link"):
+        probe("cache_reached_through_symlink")
     if sc.get("tz"):
         probe("tz_not_utc")
     if sc.get("tmp_dev"):
@@ -1045,9 +1079,9 @@ def _check_history(W, sc, sim, events, procs_meta, violations, probe, lockworld,
             if ent:
                 t1, _ = _enter_clock(ent[-1])
                 if t1 is not None:
-                    completed.append((x["seq"], x["dir"], t1))
+                    completed.append((x["seq"], x["dir"], t1, ent[-1]["t0"]))
     for e in events:
-        if e["ev"] not in ("enter-raised", "enter-returned") or not e.get("write_time") or jumped:
+        if e["ev"] not in ("enter-raised", "enter-returned") or not e.get("write_time"):
             continue
         if e.get("exc") in ("ProcessKilled", "SimAbort"):
             continue
@@ -1063,12 +1097,17 @@ def _check_history(W, sc, sim, events, procs_meta, violations, probe, lockworld,
                            or (h[3] == "open" and any(ch in str(h[5]) for ch in "wax+"))) for h in hist)
         if touched:
             continue
+        wall_elapsed, real_elapsed = t - last[2], e["t0"] - last[3]
+        if jumped and wall_elapsed >= 0:
+            continue          # the clock was moved: what the wall clock shows is all the library can know
+        if wall_elapsed < 0 and real_elapsed < hl.CACHE_TIME_THRESHOLD - 0.5:
+            probe("refresh_attempt_with_clock_behind_timestamp")
         probe("interval_truth_checked")
-        if 0 <= t - last[2] < hl.CACHE_TIME_THRESHOLD - 0.5:
+        if 0 <= wall_elapsed < hl.CACHE_TIME_THRESHOLD - 0.5 or (wall_elapsed < 0 and real_elapsed < hl.CACHE_TIME_THRESHOLD - 0.5):
             if e["ev"] == "enter-returned" or e.get("exc") != "CacheException":
                 violations.append(Violation(
                     "O-interval", "a refresh entered the cache lock %.3f s after the previous completed refresh was started "
-                    "(threshold %d s; last_update.txt holds %r)" % (t - last[2], hl.CACHE_TIME_THRESHOLD, e.get("stamp0")),
+                    "(threshold %d s; last_update.txt holds %r; %.3f s of real time)" % (t - last[2], hl.CACHE_TIME_THRESHOLD, e.get("stamp0"), real_elapsed),
                     "refresh-not-skipped").record(PROP))
             else:
                 skipped_pids.add(e["pid"])
